@@ -1,4 +1,5 @@
 import Lemmas.Conserve
+import Lemmas.Untouched
 import Lemmas.Demo
 /-!
 # C06 — aliases interchangeable, Called/CalledAs exact, untouched options keep defaults
@@ -6,12 +7,6 @@ import Lemmas.Demo
 namespace GoModel
 
 variable (ext : Ext) (mode : Mode)
-
-theorem opt_setOpt_ne (P : Prog) (o o' : Nat) (x : Opt) (h : o' ≠ o) : (P.setOpt o x).opt o' = P.opt o' := by
-  simp [Prog.setOpt, Prog.opt, List.getD, List.getElem?_set_ne (Ne.symm h)]
-
-theorem opt_setOpt_same (P : Prog) (o : Nat) (x : Opt) (h : o < P.opts.length) : (P.setOpt o x).opt o = x := by
-  simp [Prog.setOpt, Prog.opt, List.getD, h]
 
 /-! ## a match marks exactly the matched option -/
 
@@ -51,44 +46,13 @@ theorem procPair_called (s : PState) (p : Pair) (key : Str) (oid : Nat) (o' : Op
 /-! ## non-interference: nothing else moves -/
 
 /-- Processing one `(option, args)` pair changes at most the option it resolves to. -/
-theorem procPair_frame_opts (s : PState) (p : Pair) (o2 : Nat)
+theorem pair_changes_only_its_option (s : PState) (p : Pair) (o2 : Nat)
     (h : ∀ key, resolve (s.P.node s.cur) p.opt = [key] → lookup key (s.P.node s.cur).opts ≠ some o2) :
-    (procPair ext s p).P.opt o2 = s.P.opt o2 := by
-  cases hr : resolve (s.P.node s.cur) p.opt with
-  | nil =>
-    cases hro : (s.P.node s.cur).requireOrder with
-    | true => rw [procPair_unknown_ro ext s p hr hro]; rfl
-    | false => rw [procPair_unknown ext s p hr hro]; split <;> rfl
-  | cons k1 rest =>
-    cases rest with
-    | nil =>
-      cases hl : lookup k1 (s.P.node s.cur).opts with
-      | none => rw [procPair_known_nolookup ext s p k1 hr hl]
-      | some oid =>
-        have hne : o2 ≠ oid := by
-          intro heq; exact h k1 hr (by rw [hl, heq])
-        rw [procPair_known ext s p k1 oid hr hl]
-        split
-        · exact opt_setOpt_ne _ _ _ _ hne
-        · split <;> exact opt_setOpt_ne _ _ _ _ hne
-    | cons k2 ks => rw [procPair_amb ext s p k1 k2 ks hr]
+    (procPair ext s p).P.opt o2 = s.P.opt o2 := procPair_frame_opts ext s p o2 h
 
 /-- A value token changes at most the option that is collecting. -/
-theorem offer_frame_opts (s : PState) (o i : Nat) (t : Str) (o2 : Nat) (h : o2 ≠ o) :
-    (offer ext mode s o i t).1.P.opt o2 = s.P.opt o2 := by
-  unfold offer
-  simp only
-  split
-  · split
-    · rfl
-    · split
-      · rfl
-      · exact opt_setOpt_ne _ _ _ _ h
-  · split
-    · rfl
-    · split
-      · rfl
-      · exact opt_setOpt_ne _ _ _ _ h
+theorem value_changes_only_collecting (s : PState) (o i : Nat) (t : Str) (o2 : Nat) (h : o2 ≠ o) :
+    (offer ext mode s o i t).1.P.opt o2 = s.P.opt o2 := offer_frame_opts ext mode s o i t o2 h
 
 /-- the keys of the current level that lead to option `o2` -/
 def keysOf (nd : Node) (o2 : Nat) : List Str := (nd.opts.filter fun kv => kv.2 == o2).map (·.1)
@@ -150,5 +114,23 @@ example : ((parseArgs Demo.ext .normal Demo.prog [b "-n", b "x"]).P.opt 0).value
           ((parseArgs Demo.ext .normal Demo.prog [b "-n", b "x"]).P.opt 1) = Demo.prog.opt 1 ∧
           ((parseArgs Demo.ext .normal Demo.prog [b "-n", b "x"]).P.opt 2) = Demo.prog.opt 2 ∧
           ((parseArgs Demo.ext .normal Demo.prog [b "-n", b "x"]).P.opt 4).called = false := by decide
+
+/-- **Every option not mentioned keeps its declared default and reports Called false, whatever else
+is on the command line.**  "Not mentioned": no token of `args` splits into a pair that — at any
+command level — resolves by name, alias or unique abbreviation to a key of the option.  Then after
+the whole parse (every mode, unknown-mode, require-order, bundles, greedy values, errors) the option
+record is exactly the declared one: value, `Called`, `CalledAs`. -/
+theorem unmentioned_keeps_default (P : Prog) (args : List Str) (oid : Nat)
+    (hnm : ¬ Mentioned mode P args oid) :
+    (parseArgs ext mode P args).P.opt oid = P.opt oid :=
+  untouched_keeps ext mode P args oid hnm
+
+/-- on the demo program: `--num=1 -v cmd --force x` mentions neither `name` (option 0) nor `list`
+(option 2), and they are as declared after the parse -/
+example :
+    (parseArgs Demo.ext .normal Demo.prog [b "--num=1", b "-v", b "cmd", b "--force", b "x"]).P.opt 0 = Demo.prog.opt 0 ∧
+    (parseArgs Demo.ext .normal Demo.prog [b "--num=1", b "-v", b "cmd", b "--force", b "x"]).P.opt 2 = Demo.prog.opt 2 ∧
+    ((parseArgs Demo.ext .normal Demo.prog [b "--num=1", b "-v", b "cmd", b "--force", b "x"]).P.opt 1).called = true := by
+  decide
 
 end GoModel
